@@ -2,6 +2,6 @@ SPECIFICATION Spec
 INVARIANT WordsOK
 CONSTANTS
   W = 2
-  FULL = FALSE
+  FULL = TRUE
   KINDS = {"copy", "row_swap", "row_add_offset", "row_clear_offset", "bits", "concat", "stack", "submatrix", "set_ui", "add", "observers"}
 CHECK_DEADLOCK FALSE
